@@ -123,6 +123,10 @@ def _regmap(ctx):
 
 @memoised('RV-DSREAD-HSEM')
 def rule_dsread(ctx, R):
+    from rules import a64hsem as _T
+    if _T.STRICT_FAMILY:
+        R.note('rule_dsread skipped: RXVERIF_STRICT_FAMILY=1 (evaluation on terms switched off, see DESIGN.md 9.2)')
+        return
     R.rule('RV-DSREAD-HSEM', 'the words of the hand-written dataset read of the RV64 runtime (randomx_riscv64_data_read), given their architectural meaning on a register file of terms, perform specification 4.6.2 '
            'steps 5-8 with this back-end\'s register roles: the packed register ma:mx is XORed with the zero-extended low 32 bits of readReg2 ^ readReg3 (RandomX v1) or with that value shifted into the upper half '
            '(v2 tweak), the eight VM registers are XORed with the eight words of the current dataset line, the next line pointer is dataset base + (new ma:mx & CacheLineAlignMask) and the two halves are swapped; '
@@ -270,6 +274,10 @@ T.atom_eval = _atom_eval2
 
 @memoised('RV-LOOPLOAD')
 def rule_loopload(ctx, R):
+    from rules import a64hsem as _T
+    if _T.STRICT_FAMILY:
+        R.note('rule_loopload skipped: RXVERIF_STRICT_FAMILY=1 (evaluation on terms switched off, see DESIGN.md 9.2)')
+        return
     R.rule('RV-LOOPLOAD', 'the load half of the RV64 loop (randomx_riscv64_loop_begin), executed on terms, performs specification 4.6.2 steps 2-3: r_j ^= the j-th quadword at the first scratchpad address, '
            'f lane k = convert(sign-extended 32-bit integer at the second address + 4k) for k = 0..7, e lane k = (convert(integer at + 32 + 4k) & dynamic mask) | E mask of its lane parity; '
            'for the RV64GC build and for the Zba / Zbb build', min_instances=40)
@@ -351,6 +359,10 @@ def rule_loopload(ctx, R):
 
 @memoised('RV-DSREAD-LIGHT')
 def rule_dsread_light(ctx, R):
+    from rules import a64hsem as _T
+    if _T.STRICT_FAMILY:
+        R.note('rule_dsread_light skipped: RXVERIF_STRICT_FAMILY=1 (evaluation on terms switched off, see DESIGN.md 9.2)')
+        return
     R.rule('RV-DSREAD-LIGHT', 'the light-mode dataset read of the RV64 runtime up to its call of the SuperscalarHash routine (randomx_riscv64_data_read_light followed by the v1 or the v2 piece, as the generator assembles it), '
            'executed on terms: ma:mx swapped and XORed with readReg2 ^ readReg3 on the observable bits, item number = (old ma & CacheLineAlignMask) / 64 + the offset constant of the template (RV-DSOFF decides the constant), '
            'VM registers untouched; both ISA variants', min_instances=30)
@@ -418,6 +430,10 @@ def rule_dsread_light(ctx, R):
 
 @memoised('RV-DSITEM-HSEM')
 def rule_dsitem(ctx, R):
+    from rules import a64hsem as _T
+    if _T.STRICT_FAMILY:
+        R.note('rule_dsitem skipped: RXVERIF_STRICT_FAMILY=1 (evaluation on terms switched off, see DESIGN.md 9.2)')
+        return
     R.rule('RV-DSITEM-HSEM', 'the hand-written pieces of the RV64 SuperscalarHash routine, executed on terms, are the steps of specification 7.3: r0 = (item + 1) * superscalarMul0, r_i = r0 ^ superscalarAdd_i with the constants of the '
            'literal pool, first cache line = cache memory + (item & (CacheSize / 64 - 1)) * 64; r_i ^= the i-th word of the line; next line = cache memory + (register & mask) * 64; both ISA variants', min_instances=36)
     import astq
